@@ -94,6 +94,11 @@ def _one(pid: str, pname: str, c: Ctx, ob: Dict[str, Any], replay: Optional[Repl
     info = ob.get("info") or {}
     if isinstance(info, dict):
         info = {**base_info, **info}
+    if ob["kind"] != "control" and z3.is_true(z3.simplify(ob["claim"])):
+        # decided syntactically (e.g. unification produced only identical coefficient pairs): recorded, not counted as solver work
+        recs.append({"type": "obligation", "name": name, "status": PROVED, "secs": 0.0, "queries": 0, "kind": "syntactic",
+                     "detail": {"kind": ob["kind"], "note": "claim simplifies to true (structurally identical terms)"}})
+        return
     known = list(info.get("known", [])) if isinstance(info, dict) else []  # [(suffix, z3 predicate)]
     excluded: List[Any] = []
     total = 0.0
